@@ -142,6 +142,11 @@ SPECS = [
          objects={"self": ("SamplerH", ""), "samples": ("Empty", "")},
          extract={"first_attr": "samples.log_evidence", "count": 2}, result=["samples.log_evidence", "samples.log_evidence_error"],
          extract_doc="`samples.log_evidence = sum(log_norm_ratio)`, `samples.log_evidence_error = sqrt(sum(log_norm_ratio_var))`"),
+    # the loop itself, statement by statement, over the operation interface Gen.LoopOps (third vocabulary: loop2lean.py)
+    dict(name="smc_maybe_checkpoint", py="samplers/smc/base.py:SMCSampler.sample", mode="smcloop", part="maybe_checkpoint"),
+    dict(name="smc_loop_body", py="samplers/smc/base.py:SMCSampler.sample", mode="smcloop", part="body"),
+    dict(name="smc_epilogue", py="samplers/smc/base.py:SMCSampler.sample", mode="smcloop", part="epilogue"),
+    dict(name="smc_driver", py="samplers/smc/base.py:SMCSampler.sample", mode="smcloop", part="driver"),
 ]
 
 # module -> (imports, functions): one generated file per group so that an untranslatable function only breaks the
@@ -158,4 +163,5 @@ GROUPS = {
     "SrcFlows": ([], ["zuko_log_prob", "zuko_sample_and_log_prob", "flowjax_log_prob", "flowjax_sample_and_log_prob"]),
     "SrcDump": ([], ["dump_pickle_to_hdf"]),
     "SrcLoop": ([], ["should_checkpoint", "loop_exit", "init_min_step", "resume_loop_flag", "final_evidence"]),
+    "SrcSmcLoop": (["LoopOps"], ["smc_maybe_checkpoint", "smc_loop_body", "smc_epilogue", "smc_driver"]),
 }
